@@ -1,4 +1,4 @@
-use parking_lot::RwLock;
+use parking_lot::{Mutex, RwLock};
 
 // src/sql/executor/context.rs
 use super::RuntimeResult;
@@ -20,6 +20,22 @@ use std::sync::{
     atomic::{AtomicBool, Ordering},
 };
 
+/// One write of the statement that is running, as it was logged.
+pub(crate) enum StatementWrite {
+    Inserted { table: ObjectId, row: RowId },
+    /// An UPDATE rewrote the tuple: its bytes before and after.
+    Rewritten { table: ObjectId, row: RowId, before: Box<[u8]>, after: Box<[u8]> },
+}
+
+/// What one statement of an open transaction has written so far. A statement that fails after its
+/// first row takes it back (`DmlExecutor::undo_statement`); the transaction stays open.
+#[derive(Default)]
+pub(crate) struct StatementJournal {
+    pub(crate) writes: Vec<StatementWrite>,
+    /// Write-set entries that this statement added (the transaction had not written them before).
+    pub(crate) new_entries: Vec<LogicalId>,
+}
+
 /// Context of a single thread. Cannot commit transactions by itself.
 #[derive(Clone)]
 pub(crate) struct ThreadContext {
@@ -29,6 +45,8 @@ pub(crate) struct ThreadContext {
     snapshot: Snapshot,
     /// Where the transaction's writes are recorded for the validation at commit.
     coordinator: Option<TransactionCoordinator>,
+    /// Kept for a statement of a session (shared by the clones the operators of one statement hold).
+    journal: Option<Arc<Mutex<StatementJournal>>>,
 }
 
 impl ThreadContext {
@@ -44,6 +62,43 @@ impl ThreadContext {
             pager,
             catalog,
             coordinator: None,
+            journal: None,
+        }
+    }
+
+    /// The statement run with this context (and its clones) can be undone if it fails.
+    pub(crate) fn with_statement_journal(mut self) -> Self {
+        self.journal = Some(Arc::new(Mutex::new(StatementJournal::default())));
+        self
+    }
+
+    pub(crate) fn note_statement_write(&self, write: StatementWrite) {
+        if let Some(journal) = &self.journal {
+            journal.lock().writes.push(write);
+        }
+    }
+
+    /// Empties the journal of the running statement and hands out what it held.
+    pub(crate) fn take_statement_journal(&self) -> Option<StatementJournal> {
+        self.journal.as_ref().map(|journal| std::mem::take(&mut *journal.lock()))
+    }
+
+    pub(crate) fn forget_writes(&self, ids: &[LogicalId]) {
+        if let Some(coordinator) = &self.coordinator {
+            coordinator.forget_writes(self.tid, ids);
+        }
+    }
+
+    /// A failed statement could not be taken back: the transaction must not commit what is left of it.
+    pub(crate) fn abort_after_failed_undo(&self) {
+        if let Some(coordinator) = &self.coordinator {
+            let _ = coordinator.abort(self.tid);
+        }
+    }
+
+    fn note_new_entry(&self, id: LogicalId, is_new: bool) {
+        if let (true, Some(journal)) = (is_new, &self.journal) {
+            journal.lock().new_entries.push(id);
         }
     }
 
@@ -60,11 +115,9 @@ impl ThreadContext {
             use std::hash::{Hash, Hasher};
             let mut hasher = std::collections::hash_map::DefaultHasher::new();
             key.hash(&mut hasher);
-            coordinator.record_write(
-                self.tid,
-                LogicalId::new(index, hasher.finish()),
-                TransactionCoordinator::KEY_ENTRY,
-            )?;
+            let id = LogicalId::new(index, hasher.finish());
+            let is_new = coordinator.record_write(self.tid, id, TransactionCoordinator::KEY_ENTRY)?;
+            self.note_new_entry(id, is_new);
         }
         Ok(())
     }
@@ -73,7 +126,9 @@ impl ThreadContext {
     /// committed after this one began wrote the same row (first committer wins).
     pub(crate) fn record_write(&self, table: ObjectId, row: RowId) -> RuntimeResult<()> {
         if let Some(coordinator) = &self.coordinator {
-            coordinator.record_write(self.tid, LogicalId::new(table, row), 0)?;
+            let id = LogicalId::new(table, row);
+            let is_new = coordinator.record_write(self.tid, id, 0)?;
+            self.note_new_entry(id, is_new);
         }
         Ok(())
     }
